@@ -51,12 +51,22 @@ package flowcontrol
 
 // The limiter server applies an accepted FlowControl without crashing (C16): a schema with a global member always gets a
 // server-side limiter, and the resize helper is only handed an existing one.
-//@ func NewGlobalFlowControl props C16
+//@ func newMaxInflightFlowControl props C08
+//@   modifies nothing
+//@   ensures [empty_with_limit] typeis(result, "*globalMaxInflight") && unbox(result, "*globalMaxInflight") != nil && fresh(unbox(result, "*globalMaxInflight")) && unbox(result, "*globalMaxInflight").max == max && unbox(result, "*globalMaxInflight").count == 0 && unbox(result, "*globalMaxInflight").typ == typ && unbox(result, "*globalMaxInflight").instanceStates != nil && (forall i string :: {i in unbox(result, "*globalMaxInflight").instanceStates} !(i in unbox(result, "*globalMaxInflight").instanceStates))
+
+// The server-side limiter of a schema is built from the schema's GLOBAL limits: max-in-flight with GlobalMaxRequestsInflight.Max,
+// token bucket with GlobalTokenBucket's (QPS, Burst) (C08), and later resized with the same fields.
+//@ func NewGlobalFlowControl props C16, C08
 //@   panics-never
 //@   modifies rlq, rlb
+//@   ensures [inflight_from_global_max] schema.GlobalMaxRequestsInflight != nil ==> typeis(result, "*globalMaxInflight") && unbox(result, "*globalMaxInflight").max == schema.GlobalMaxRequestsInflight.Max && unbox(result, "*globalMaxInflight").count == 0
+//@   ensures [bucket_from_global_bucket] schema.GlobalMaxRequestsInflight == nil && schema.GlobalTokenBucket != nil ==> typeis(result, "*globalTokenBucket") && rlq[unbox(result, "*globalTokenBucket").limiter] == real(schema.GlobalTokenBucket.QPS) && rlb[unbox(result, "*globalTokenBucket").limiter] == schema.GlobalTokenBucket.Burst
 //@   ensures [non_nil_for_global] schema.GlobalMaxRequestsInflight != nil || schema.GlobalTokenBucket != nil ==> result != nil
 
-//@ func ResizeGlobalFlowControl props C16
+//@ func ResizeGlobalFlowControl props C16, C08
+//@   ensures [inflight_to_global_max] schema.GlobalMaxRequestsInflight != nil && fc != nil ==> gfcsize[fc] == schema.GlobalMaxRequestsInflight.Max
+//@   ensures [bucket_to_global_qps] schema.GlobalMaxRequestsInflight == nil && schema.GlobalTokenBucket != nil && fc != nil ==> gfcsize[fc] == schema.GlobalTokenBucket.QPS
 //@   requires [fc] schema.GlobalMaxRequestsInflight != nil || schema.GlobalTokenBucket != nil ==> fc != nil
 //@   panics-never
 //@   modifies gfcsize[fc]
